@@ -22,7 +22,7 @@ class Scn:
     def __init__(self, sess, rng, sid):
         self.s = sess; self.rng = rng; self.sid = sid
         self.ev = []; self.req = {}; self.next_r = 1; self.pdus = {}; self.delivered = {}; self.peer_open = True
-        self.pos = {}      # r -> offset python believes the client has reached (contiguous sending)
+        self.pos = {}      # r -> SET of offsets the client may have reached in request r (small requests can share leading bytes: every reading is kept)
 
     def start(self):
         self.s.cmd("TNEW 100000 100000 100000")
@@ -35,7 +35,7 @@ class Scn:
         r = self.next_r; self.next_r += 1
         n = n or self.rng.choice([1, 2, 3, 5, 9, 17, 120, 300, 4000, 70000] if self.rng.random() < 0.3 else [1, 2, 3, 4, 5, 6, 7])
         b = self.rng.randbytes(n)
-        self.req[r] = b; self.pos[r] = 0
+        self.req[r] = b; self.pos[r] = {0}
         out = self.s.cmd("TADD %d %s" % (r, b.hex()))
         if "rc=0x0" not in out[-1]:
             raise vlib.CheckError("TADD failed: %s" % out)
@@ -69,14 +69,11 @@ class Scn:
                     data = bytes.fromhex(f["data"]) if f.get("data", "-") != "-" else b""
                     c = []
                     for q, b in self.req.items():
-                        for frm in sorted({0, self.pos.get(q, 0)}):
+                        for frm in sorted({0} | self.pos.get(q, {0})):
                             if b[frm:frm + len(data)] == data and len(data) > 0:
                                 c.append([q, frm])
-                    if len(c) >= 1:
-                        # remember where contiguous sending would be now (first candidate that continues, else restart)
-                        cont = [x for x in c if x[1] == self.pos.get(x[0], 0) and x[1] > 0] or c
-                        q, frm = cont[0]
-                        self.pos[q] = frm + len(data)
+                    for q, frm in c:            # every reading of these bytes stays possible; TcpStream.tla decides which one is a behaviour
+                        self.pos.setdefault(q, {0}).add(frm + len(data))
                     self.ev.append(dict(e="Send", len=int(f["len"]), n=int(r), c=c or [[0, 0]]))
                 else:
                     self.ev.append(dict(e="Send", len=int(f["len"]), n={"EWOULDBLOCK": -1, "EPIPE": -2}[r], c=[[0, 0]]))
